@@ -94,6 +94,21 @@ def lookback(S, M, K, T, sig):
     return (M - K) + S * _N(e1) - M * _N(e2) + S * w * (_n(e1) + e1 * _N(e1))
 
 
+def lookback_time_value(S, M, K, T, sig):
+    """lookback(S, M, K, T, sig) - max(M - K, 0): the part of the price that depends on the volatility,
+    written without the cancellation against the intrinsic value (for K < M every term below is small
+    when the volatility is small, so its relative precision survives in mpmath)."""
+    S, M, K, T, sig = map(mp.mpf, (S, M, K, T, sig))
+    if K >= M:
+        return lookback(S, M, K, T, sig)
+    w = sig * mp.sqrt(T)
+    e1 = _d1(S, M, T, sig)
+    e2 = e1 - w
+    # S N(e1) - M N(e2) + S w (n(e1) + e1 N(e1)) with M N(e2) = M - M N(-e2): the constant M - K is dropped
+    # and  S N(e1) - M N(e2)  is evaluated as it stands (both small for S < M, no cancellation with O(1) terms)
+    return S * _N(e1) - M * _N(e2) + S * w * (_n(e1) + e1 * _N(e1))
+
+
 def price(product, S, M, K, T, sig, call=True):
     S, K, T, sig = mp.mpf(S), mp.mpf(K), mp.mpf(T), mp.mpf(sig)
     if product == "european":
